@@ -1,6 +1,8 @@
 // Harness for C08 (xmath.BitSet): two bit sets A and B per history, driven only through the exported API.
 //
-// Mutators print Count() of the receiver afterwards; queries print their result; `mem R` prints the members below
+// Mutators print Count() of the receiver afterwards followed by ` h=<hash>`, a 64-bit multiply-xorshift hash of the canonical
+// words of the WHOLE set (Clone().Data(), which leaves the receiver alone) — so every mutating line compares the complete
+// abstract state, not only its cardinality; queries print their result; `mem R` prints the members below
 // 66*64 as hex words obtained through State (trailing zero words dropped); `obs R` prints Count, the State scan,
 // FirstSet, LastSet and then Data() (which trims the receiver); `data R` prints Data().
 //
@@ -9,7 +11,8 @@
 // later line (the bit set must never write into it: the line gets the suffix ` ALIAS:<what>`, which the model never
 // prints).  Clone/Copy independence is observed by mutating either bit set and observing the other.
 //
-// Hangs: every line is executed by a worker goroutine under a deadline (HX_C08_DEADLINE_MS, default 1500).  A line that
+// Hangs: every line is executed by a worker goroutine under a deadline (HX_C08_DEADLINE_MS, default 1500) that is
+// confirmed by the CPU clock of the process (a starved worker is waited for, a spinning one is not).  A line that
 // does not return prints `hang`, the rest of its history prints `skipped-after-crash` (ignored by the comparison), the
 // worker and its bit sets are abandoned; after three hangs the rest of the stream is skipped.
 package main
@@ -18,6 +21,7 @@ import (
 	"os"
 	"strconv"
 	"strings"
+	"syscall"
 	"time"
 
 	"github.com/richardwilkes/toolbox/xmath"
@@ -96,6 +100,20 @@ func memStr(b *xmath.BitSet) string {
 	return wordsStr(ws[:n])
 }
 
+// stateHash is the full abstract state of b in 16 hex digits at most: the hash of the minimal word list.  It goes through
+// a clone so that the receiver's storage (which Data would trim) stays what the history made it.
+func stateHash(b *xmath.BitSet) string {
+	d := b.Clone().Data()
+	h := uint64(0xcbf29ce484222325)
+	for _, w := range d {
+		h = (h ^ w) * 0x100000001b3
+		h ^= h >> 29 // multiplication only carries upwards: fold the high bits back so that bit 63 of a word counts
+	}
+	h = (h ^ uint64(len(d))) * 0x100000001b3
+	h ^= h >> 32
+	return strconv.FormatUint(h, 16)
+}
+
 func scribble(d []uint64) {
 	for i := range d {
 		d[i] = ^d[i]
@@ -162,7 +180,8 @@ func (s *session) exec(line string) string {
 	if b == nil {
 		return "bad-op"
 	}
-	cnt := func() string { return strconv.Itoa(b.Count()) }
+	plain := func() string { return strconv.Itoa(b.Count()) }
+	cnt := func() string { return strconv.Itoa(b.Count()) + " h=" + stateHash(b) }
 	switch {
 	case f[0] == "set" && len(f) == 3:
 		b.Set(hx.Atoi(f[2]))
@@ -211,7 +230,7 @@ func (s *session) exec(line string) string {
 		} else {
 			s.b = c
 		}
-		return strconv.Itoa(c.Count())
+		return strconv.Itoa(c.Count()) + " h=" + stateHash(c)
 	case f[0] == "trim" && len(f) == 2:
 		b.Trim()
 		return cnt()
@@ -235,7 +254,7 @@ func (s *session) exec(line string) string {
 	case f[0] == "state" && len(f) == 3:
 		return strconv.FormatBool(b.State(hx.Atoi(f[2])))
 	case f[0] == "count" && len(f) == 2:
-		return cnt()
+		return plain()
 	case f[0] == "first" && len(f) == 2:
 		return strconv.Itoa(b.FirstSet())
 	case f[0] == "last" && len(f) == 2:
@@ -255,7 +274,7 @@ func (s *session) exec(line string) string {
 	case f[0] == "mem" && len(f) == 2:
 		return memStr(b)
 	case f[0] == "obs" && len(f) == 2:
-		pre := "c=" + cnt() + " m=" + memStr(b) + " f=" + strconv.Itoa(b.FirstSet()) + " l=" + strconv.Itoa(b.LastSet())
+		pre := "c=" + plain() + " m=" + memStr(b) + " f=" + strconv.Itoa(b.FirstSet()) + " l=" + strconv.Itoa(b.LastSet())
 		return pre + " d=" + s.data(b)
 	}
 	return "bad-op"
@@ -314,17 +333,44 @@ func (ar *area) Run(line string) string {
 		return "skipped-after-crash"
 	}
 	ar.w.in <- line
+	start, cpu0 := time.Now(), cpuTime()
 	ar.timer.Reset(ar.deadline)
-	select {
-	case r := <-ar.w.out:
-		ar.timer.Stop()
-		return r
-	case <-ar.timer.C:
-		ar.hangs++
-		ar.dead = true
-		ar.w = newWorker() // the old worker keeps spinning on bit sets nobody looks at any more
-		return "hang"
+	for {
+		select {
+		case r := <-ar.w.out:
+			ar.timer.Stop()
+			return r
+		case <-ar.timer.C:
+		}
+		// The deadline has passed.  On an overloaded machine that alone does not mean the line loops: the worker may simply
+		// not have been scheduled.  A line that really loops burns CPU, so the FIRST hang of a stream is declared only
+		// when this process has consumed CPU for about as long as the deadline since the line began (or after 40
+		// deadlines of wall time, whatever the CPU says).  Once a hang is established the abandoned worker keeps
+		// spinning and the CPU clock says nothing any more: later lines get three deadlines of wall time.
+		el := time.Since(start)
+		hung := false
+		if ar.hangs == 0 {
+			hung = cpuTime()-cpu0 >= ar.deadline*8/10 || el >= 40*ar.deadline
+		} else {
+			hung = el >= 3*ar.deadline
+		}
+		if hung {
+			ar.hangs++
+			ar.dead = true
+			ar.w = newWorker() // the old worker keeps spinning on bit sets nobody looks at any more
+			return "hang"
+		}
+		ar.timer.Reset(25 * time.Millisecond)
 	}
+}
+
+// cpuTime is the CPU time (user + system) this process has consumed so far.
+func cpuTime() time.Duration {
+	var ru syscall.Rusage
+	if syscall.Getrusage(syscall.RUSAGE_SELF, &ru) != nil {
+		return 0
+	}
+	return time.Duration(ru.Utime.Nano() + ru.Stime.Nano())
 }
 
 func main() {
